@@ -33,10 +33,38 @@ def check_ints(obj, path="$"):
 
 
 def validate(module: str, tag: str, traces: list, *, constants=None, workers="auto", timeout=3600,
-             extra_env=None, invariants=("Done",), extra_defs: str = "", spec: str = "Spec"):
-    """Returns (verdicts, tlc_result); verdicts[i] is [] (accepted) or a list of (event, clause)."""
+             extra_env=None, invariants=("Done",), extra_defs: str = "", spec: str = "Spec", max_events_per_run: int = 400000):
+    """Returns (verdicts, tlc_result); verdicts[i] is [] (accepted) or a list of (event, clause).
+
+    Large batches are split over several TLC runs (JSON deserialisation of hundreds of MB in one run is slow);
+    the returned result carries the summed state counts."""
     if not traces:
         raise tlc.TLCError(f"no traces recorded for {tag}")
+    chunks, cur, n = [], [], 0
+    for t in traces:
+        cur.append(t)
+        n += len(t["ev"]) + 1
+        if n >= max_events_per_run:
+            chunks.append(cur)
+            cur, n = [], 0
+    if cur:
+        chunks.append(cur)
+    verdicts, total = [], None
+    for k, ch in enumerate(chunks):
+        vd, res = _validate_one(module, tag if len(chunks) == 1 else f"{tag}_{k}", ch, constants=constants, workers=workers, timeout=timeout,
+                                extra_env=extra_env, invariants=invariants, extra_defs=extra_defs, spec=spec)
+        verdicts += vd
+        if total is None:
+            total = res
+        else:
+            total.states += res.states
+            total.distinct += res.distinct
+            total.wall_s += res.wall_s
+            total.depth = max(total.depth, res.depth)
+    return verdicts, total
+
+
+def _validate_one(module, tag, traces, *, constants, workers, timeout, extra_env, invariants, extra_defs, spec):
     # only the per-trace integer constants "c" and the events "ev" go to TLC; "meta" stays with the driver
     sent = [{"c": t.get("c", {}), "ev": t["ev"]} for t in traces]
     check_ints(sent)
